@@ -1,14 +1,36 @@
-(** C04 (part: staged executors) -- every transfer terminates: no deadlock or
-    hang of the permit-bounded FIFO executors, for every number of workers
-    >= 1 and every number of permits >= 1 (including all ones) and every
-    finite plan forest that respects the stage discipline.
-    To be merged into props/C04.v.  Only statements, each closed by
-    [exact]/[apply] of a lemma of proofs/StageProofs.v and followed by
-    Print Assumptions, plus non-vacuity Examples.
-    Model: model/Stage.v; mapping to the code: proofs/STAGE_NOTES.md. *)
-From Coq Require Import List Bool Arith Lia.
+(** C04 -- every transfer terminates: no deadlock, hang or lost wake-up.
+
+    Three machine-checked layers, each closed by [exact]/[apply] of a lemma and
+    followed by Print Assumptions:
+
+    (1) STAGED EXECUTORS (model/Stage.v, proofs/StageProofs.v): the generative
+        model of the manager's blocking structure -- user threads, submission /
+        request / IO executors with >= 1 workers and >= 1 permits each, tag
+        semaphores (counting and sliding window), dependency waits, the
+        submission error path's wait-for-all, result() and shutdown joins --
+        for EVERY finite plan forest obeying the stage discipline, EVERY
+        configuration (all ones included) and EVERY schedule: some step is
+        always enabled until everything has ended (progress), every step
+        decreases a measure (termination), hence every maximal execution ends
+        with all tasks ended, all permits back and every user call returned.
+        proofs/STAGE_NOTES.md maps each blocking point of the code to the model.
+    (2) RE-ENTRANT CALLBACKS (model/Coord.v): subscriber callbacks that call
+        back into their own future (done, meta, set_exception, cancel, result)
+        never self-deadlock when announces happen in done states -- which is
+        what the protocol does (proved for Sys.v: [ann_started_done]) --; the
+        pre-F2 code is refuted by witness.
+    (3) NO LOST WAKE-UP (model/SemaConc.v): a sleeping acquirer of the sliding
+        window semaphore always has a waker; no stuck state.
+
+    What the models cannot exhibit (interpreter scheduling, sockets and disks,
+    signals, time-outs) is explored on the real code only through the
+    deterministic scheduler's deadlock / livelock detector (harness/props/c04.py). *)
+From Coq Require Import ZArith List Bool Arith Lia.
 From S3V Require Import model.Stage proofs.StageProofs.
+From S3V Require model.Coord proofs.CoordProofs model.Sema model.SemaConc proofs.SemaProofs proofs.SemaConcProofs.
+From S3V Require model.Sys proofs.SysBase proofs.SysQuiesce.
 Import ListNotations.
+
 
 (** Progress: while some spawned task has not ended or some user thread has
     not finished its program (result(), cancel(), shutdown() included), some
@@ -149,3 +171,38 @@ Proof. vm_compute. auto. Qed.
 (** The stage discipline is what the check looks at: the deadlocking plan is rejected. *)
 Example C04_stage_bad_plan_rejected : wf_planb bad_plan = false.
 Proof. vm_compute. reflexivity. Qed.
+
+
+(** ** (2) callbacks re-entering their own future *)
+Section Reentrancy.
+  Import Coord CoordProofs.
+  Theorem C04_callbacks_no_self_deadlock : forall E ops s,
+    along (fun s0 o r s' => is_announce_op o = true -> done s0 = true) (run E true s ops) ->
+    along (fun s0 o r s' => r <> RSelfDeadlock /\ r <> RStuck) (run E true s ops).
+  Proof. exact no_self_deadlock_disciplined. Qed.
+End Reentrancy.
+Print Assumptions C04_callbacks_no_self_deadlock.
+
+(** the discipline holds in the protocol: whoever announces, the transfer is done *)
+Theorem C04_announce_only_when_done : forall a b c d e f g h s t co,
+  SysBase.reachable (Sys.init a b c d e f g h) s ->
+  Sys.find_coord t (Sys.coords s) = Some co ->
+  (Sys.c_ann_started co = true \/ Sys.c_announcers co <> [] \/ Sys.c_owing co <> []) ->
+  Sys.is_done (Sys.c_status co) = true.
+Proof.
+  intros a b c d e f g h s t co Hr Hf H.
+  apply (SysQuiesce.ann_started_done a b c d e f g h s t co Hr Hf).
+  destruct H as [H|[H|H]]; auto.
+Qed.
+Print Assumptions C04_announce_only_when_done.
+
+(** ** (3) no lost wake-up of blocked acquirers *)
+Section Wakeup.
+  Import Sema SemaConc SemaProofs SemaConcProofs.
+  Theorem C04_no_lost_wakeup : forall cap ls c ops, (0 < cap)%Z ->
+    crun (cinit cap) ls = Some (c, ops) -> wf cap ops = true ->
+    quiescent (snd (grun (sw_init cap) ghost0 ops)) = true ->
+    c_noti c = [] -> c_wait c = [].
+  Proof. exact no_lost_wakeup. Qed.
+End Wakeup.
+Print Assumptions C04_no_lost_wakeup.
